@@ -630,6 +630,58 @@ impl Family for Chk5 {
     }
 }
 
+/// PUSHCHK: a white pawn on its start square whose double push checks the black king and can be
+/// taken en passant by a black pawn next to its arrival square; white king and two further white
+/// pieces (every ordered pair of kinds from Q R B N) anywhere. White to move, no e.p. square yet:
+/// the push that CREATES the e.p. right is the move under test (check / mate suffix, evasions that
+/// exist only as en passant captures).
+pub struct PushChk;
+impl Family for PushChk {
+    fn name(&self) -> String {
+        "PUSHCHK".into()
+    }
+    fn len(&self) -> u64 {
+        8 * 2 * 2 * 64 * 64 * 64 * 16
+    }
+    fn decode(&self, mut i: u64) -> Option<Pos> {
+        let mut take = |n: u64| -> u64 {
+            let v = i % n;
+            i /= n;
+            v
+        };
+        let f = take(8) as i8;
+        let bp_side = if take(2) == 0 { -1i8 } else { 1 };
+        let bk_side = if take(2) == 0 { -1i8 } else { 1 };
+        let wk = take(64) as u8;
+        let x1 = take(64) as u8;
+        let x2 = take(64) as u8;
+        let kinds = [QUEEN, ROOK, BISHOP, KNIGHT];
+        let k1 = kinds[take(4) as usize];
+        let k2 = kinds[take(4) as usize];
+        if k1 == k2 && x1 >= x2 {
+            return None;
+        }
+        let mut p = Pos::empty();
+        p.board[sq_at(f, 6)? as usize] = pc(WHITE, PAWN);
+        p.board[sq_at(f + bp_side, 4)? as usize] = pc(BLACK, PAWN);
+        let bk = sq_at(f + bk_side, 3)?;
+        p.board[bk as usize] = pc(BLACK, KING);
+        let blocked = [sq_at(f, 5)?, sq_at(f, 4)?];
+        for (sq, piece) in [(wk, pc(WHITE, KING)), (x1, pc(WHITE, k1)), (x2, pc(WHITE, k2))] {
+            if p.board[sq as usize] != EMPTY || blocked.contains(&sq) {
+                return None;
+            }
+            p.board[sq as usize] = piece;
+        }
+        p.stm = WHITE;
+        if p.is_legal_position() {
+            Some(p)
+        } else {
+            None
+        }
+    }
+}
+
 /// MANY: nine or ten like white pieces (promotions make that legal): all eight squares of one
 /// row plus one or two more anywhere, both kings anywhere, optionally one black rook anywhere;
 /// both sides to move. For anything that assumes "never more than eight of a kind".
